@@ -470,6 +470,13 @@ def gen_shape_cases(rng):
         ("select a from t1 where not (a between %d and %d)" % (k + 1, k), False),
         ("select a from t1 where case when b > %d then a else b end > 1" % k, False),
         ("select a, case when a is null then 0 when a > 1 then a else -a end from t1", False),
+        # DISTINCT ON: ORDER BY keys inside / outside the ON list (the binder must refuse a key the aggregation drops)
+        ("select distinct on (b) b, a from t1 order by b", False),
+        ("select distinct on (b) b, a from t1 order by b, a", False),
+        ("select distinct on (a) a, b from t1 order by a desc, b", False),
+        ("select distinct on (a + b) a + b, a from t1 order by a + b", False),
+        ("select distinct on (a) a, b + 1 from t1 order by b + 1", False),
+        ("select distinct a, b from t1 order by a, b", True),
         # two bounds on one column with constants of DIFFERENT types (the range-fold / conflict rules compare the
         # constants: INT vs DECIMAL vs BIGINT must be compared by value)
         ("select a from t1 where a > 0.5 and a < 4", False),
